@@ -34,6 +34,8 @@ D2 = "D2-unobserved-arm-covariance"
 def plan_st(draw, tier):
     name = draw(st.sampled_from(["LinGreedy", "LinUCB", "LinUCB", "LinTS", "LinTS"]))
     lam = draw(st.sampled_from([1, 1.0, 0.25, 0.5, 2, 10, 100, 4.5]))
+    if draw(st.integers(0, 2)) == 0:
+        lam = round(draw(st.floats(0.05, 100, allow_nan=False)), 4)
     scale = draw(st.integers(0, 3)) == 0
     if name == "LinGreedy":
         lp = [name, {"epsilon": 0, "l2_lambda": lam, "scale": scale}]
@@ -46,7 +48,7 @@ def plan_st(draw, tier):
            "arm_kind": kind}
     fam = draw(st.sampled_from(["E", "Eint", "F3"]))
     h = gen.History(draw, cfg, reward_family="E" if fam == "F3" else fam,
-                    grid=draw(st.sampled_from(["int", "half"])), d=draw(st.integers(1, 5)), max_rows=10)
+                    grid=draw(st.sampled_from(["int", "half", "real"])), d=draw(st.integers(1, 5)), max_rows=10)
     h.fit()
     if draw(st.booleans()) and h.can_add():
         h.add_arm()
